@@ -449,7 +449,10 @@ def run_c11(chk, tier, seed):
     chk.cov["exhaustive"] = True
     chk.cov["rule"] = (f"every message of <= {k} units over the C10 query units x every capacity 0..{maxlen} (beyond the longest response) on ArrayVec<u8,CAP>: Ok => bytes equal the growable-buffer run "
                        "(both equal the specification's), otherwise exactly -225 and len <= CAP; heap allocations inside Node::run counted by a counting global allocator (handler bookkeeping excluded) must be 0")
-    chk.assumptions += ["allocation-freedom is monitored on every replayed message (the specification has no allocating action; the monitor checks the code has none)"]
+    from . import eng_status
+    eng_status.cap_trace(chk, tier, seed)
+    chk.assumptions += ["the mandated commands (SYST:ERR?, :ALL?, *STB? ...) are covered by recorded status histories re-run on fixed-capacity buffers (TraceStatus capacity rows)",
+                        "allocation-freedom is monitored on every replayed message (the specification has no allocating action; the monitor checks the code has none)"]
 
 
 def run(chk, tier, seed):
